@@ -421,10 +421,6 @@ def invariant(s):
         for p in g.predecessor_indices(n):
             if t not in g[p]._child_types:
                 errs.append("illegal-link")
-        if indeg > 1:
-            pn = A["pnames"].get(n)
-            if pn is None or len(pn) != indeg or any(s._get_index(x) not in list(g.predecessor_indices(n)) for x in pn):
-                errs.append("mux-input-list-stale")
     if nm > 1:
         errs.append("two-mux")
     return sorted(set(errs))
